@@ -21,7 +21,7 @@ type c09Case struct {
 func init() {
 	engine.Register(&engine.Check{
 		ID: "C09", Level: "exploration",
-		Rule: "every closed ring of 3 (and 4) free vertices on the 4x4 (3x3 quick for 4) integer grid as LinearRing, single-ring Polygon and single-polygon MultiPolygon; every polyline of 0..3 grid points; every sequence of 0..3 rings over a 6-ring menu (empty, ccw, cw, quad, 1-point, 2-point) as Polygon; every sequence of 0..3 polygons over an 8-polygon menu (incl. no-ring and empty-ring polygons) as MultiPolygon; every sequence of 0..3 lines over a 4-line menu as MultiLineString; x layouts (extra ordinates are distractors) x exact scalings 2^k; Area/Length vs rational shoelace and 256-bit sqrt sums with a forward error bound; additivity against part accessors; totality (no panic). distinct_nontrivial = distinct geometries with at least one segment",
+		Rule: "every closed ring of 3 (and 4) free vertices on the 4x4 (3x3 quick for 4) integer grid as LinearRing, single-ring Polygon and single-polygon MultiPolygon; every polyline of 0..3 grid points; every sequence of 0..3 rings over a 6-ring menu (empty, ccw, cw, quad, 1-point, 2-point) as Polygon; every sequence of 0..3 polygons over an 8-polygon menu (incl. no-ring and empty-ring polygons) as MultiPolygon; every sequence of 0..3 lines over a 4-line menu as MultiLineString; plus large instances (rings and lines of 10/100/1000 lattice vertices, polygons of up to 200 rings, multipolygons of up to 260 polygons incl. empty ones) x layouts (extra ordinates are distractors) x exact scalings 2^k; Area/Length vs rational shoelace and 256-bit sqrt sums with a forward error bound; additivity against part accessors; totality (no panic). distinct_nontrivial = distinct geometries with at least one segment",
 		Run:    c09Run,
 		Replay: func(c *engine.Ctx, kind string, raw json.RawMessage) { c09Exec(c, decodeCase[c09Case](raw)) },
 		Assumptions: []string{
@@ -146,6 +146,32 @@ func c09Run(c *engine.Ctx) {
 		add(ref.NewPoint(l, false, ref.Counter()))
 		for _, p := range ref.Seqs([]int{0, 1}, 3) {
 			add(ref.NewMultiPoint(l, p, ref.Counter()))
+		}
+	}
+	// large instances: many vertices, many rings, many polygons (deterministic lattice points)
+	lat := func(i int) pt2 { return pt2{float64((i * 7919) % 1009), float64((i * 104729) % 997)} }
+	for _, l := range []geom.Layout{geom.XY, geom.XYZM} {
+		for _, n := range []int{10, 100, 1000} {
+			var pts []pt2
+			for i := 0; i < n; i++ {
+				pts = append(pts, lat(i+n))
+			}
+			ring := closed(pts...)
+			add(&ref.G{Kind: ref.LinearRing, Layout: l, C1: ringC(ring, l, ref.Counter())})
+			add(&ref.G{Kind: ref.LineString, Layout: l, C1: ringC(pts, l, ref.Counter())})
+			poly := [][]ref.C{}
+			mp := [][][]ref.C{}
+			for r := 0; r < n/5; r++ {
+				rr := closed(lat(3*r), lat(3*r+1), lat(3*r+2), lat(3*r+7))
+				poly = append(poly, ringC(rr, l, ref.Counter()))
+				if r%3 == 1 {
+					mp = append(mp, [][]ref.C{})
+				}
+				mp = append(mp, [][]ref.C{ringC(rr, l, ref.Counter()), ringC(closed(lat(r), lat(r+5), lat(r+9)), l, ref.Counter())})
+			}
+			add(&ref.G{Kind: ref.Polygon, Layout: l, C2: poly})
+			add(&ref.G{Kind: ref.MultiLineString, Layout: l, C2: poly})
+			add(&ref.G{Kind: ref.MultiPolygon, Layout: l, C3: mp})
 		}
 	}
 	scales := []int{0, 200}
